@@ -95,7 +95,7 @@ VARIANTS = [
          [(GE, '    raise JaqalError(f"Cannot write {val!r} as a Jaqal value")\n', "")],
          ("C01.11", "generate_jaqal_value:falls-through"), ("C01",)),
     fire("w3-value-writer-builtin-numbers-only",
-         [(GE, "    if not isinstance(val, (int, float)):\n        if isinstance(val, Integral):\n            val = int(val)\n        elif isinstance(val, Real):\n            val = float(val)\n", "")],
+         [(GE, "    if isinstance(val, bool) or not isinstance(val, (int, float)):\n        if isinstance(val, Integral):\n            val = int(val)\n        elif isinstance(val, Real):\n            val = float(val)\n", "")],
          ("C01.11", "generate_jaqal_value:number-types"), ("C01",)),
     fire("w3-subcircuit-not-reserved",
          [(UT, '    "subcircuit",\n', "")],
